@@ -3,7 +3,7 @@
    (MultiTypeMap.mro: the only place type-order / applicability computations and user hooks are reached) was computed. *)
 From Coq Require Import ZArith List Bool Arith.
 Import ListNotations.
-From OvldV Require Import Model.Order Model.Ty Model.Resolve Model.Cache Proofs.CacheFacts.
+From OvldV Require Import Model.Order Model.Ty Model.Resolve Model.Cache Proofs.CacheFacts Proofs.CacheFull.
 
 (* a key that is in the dict is answered without resolution *)
 Theorem C20_hit_no_resolution : forall sub hasm chk fresh st k h,
@@ -14,10 +14,19 @@ Print Assumptions C20_hit_no_resolution.
 (* once an access succeeded, every later access of the same combination -- after any sequence of accesses of any
    keys, successful or not -- is a hit, returns the same handler and leaves the state unchanged.
    (Failed lookups are recomputed: outside the property.  Registration empties the dict: the only operation after which a
-   resolution may be computed again.)  Continuation keys: covered by the correspondence only. *)
+   resolution may be computed again.) *)
 Theorem C20_resolved_once : forall sub hasm chk fresh st k st1 h r ops,
   get_plain sub hasm chk fresh st k = (st1, ORun h, r) -> all_gets ops = true ->
   get_plain sub hasm chk fresh (fst (crun sub hasm chk fresh st1 ops)) k
     = (fst (crun sub hasm chk fresh st1 ops), ORun h, false).
 Proof. exact resolved_once. Qed.
 Print Assumptions C20_resolved_once.
+
+(* ... and every later continuation access (caller code c, same combination: what call_next performs) is answered
+   without a resolution and leaves the table as it is; what it answers is the fresh table's answer by C04_history_free *)
+Theorem C20_next_no_resolution : forall sub hasm chk fresh st k st1 h r ops c,
+  get_plain sub hasm chk fresh st k = (st1, ORun h, r) -> all_gets ops = true ->
+  exists out, getitem sub hasm chk fresh (fst (crun sub hasm chk fresh st1 ops)) (mkQ (Some c) k)
+              = (fst (crun sub hasm chk fresh st1 ops), out, false).
+Proof. exact resolved_once_next. Qed.
+Print Assumptions C20_next_no_resolution.
